@@ -44,6 +44,7 @@ structure JU where
                                        -- the flag: sent while a get_char() of this user was pending
   fresh : List (Char × Bool) := []     -- sent after the last `begin`
   charMode : Bool := false       -- a get_char() succeeded since this user's last command
+  rawTaint : Bool := false       -- something was typed while a get_char() was pending and the queue has not drained since
   served : Bool := false         -- in the running cycle
   eligible : Bool := false       -- snapshot taken at `begin`
   deriving Repr, BEq, DecidableEq
@@ -102,12 +103,12 @@ def judgeStep (s0 : JState) (e : Ev) : JState :=
   match e with
   | .conn _ => s
   | .logon u => setU s u { connected := true }
-  | .send u d => let j := getU s u; setU s u { j with fresh := j.fresh ++ d.map (fun c => (c, j.charMode)) }
+  | .send u d => let j := getU s u; setU s u { j with fresh := j.fresh ++ d.map (fun c => (c, j.charMode)), rawTaint := j.rawTaint || j.charMode }
   | .close u => let j := getU s u; setU s u { j with clientOpen := false }
   | .begin n =>
     let s := if s.cyc.isSome then s.flag (.malformed "nested begin") else s
     let blocker := (s.us.find? (fun e => live e.2 && complete e.2.charMode e.2.pending)).map
-      (fun e => (e.1, firstLineRaw e.2.pending))
+      (fun e => (e.1, e.2.rawTaint || firstLineRaw e.2.pending))
     let us := s.us.map (fun (u, j) =>
       let p := j.pending ++ j.fresh
       (u, { j with pending := p, fresh := [], served := false, eligible := live j && complete j.charMode p }))
@@ -121,9 +122,9 @@ def judgeStep (s0 : JState) (e : Ev) : JState :=
     let j := getU s u
     let s := if j.served then s.flag (.twice u (s.cyc.getD 0)) else s
     match consume j.charMode j.pending text with
-    | some p => setU s u { j with pending := p, served := true, charMode := false }
+    | some p => setU s u { j with pending := p, served := true, charMode := false, rawTaint := j.rawTaint && !p.isEmpty }
     | none =>
-      setU (s.flag (if j.pending.any (·.2) then .fifoRaw u text else .fifo u text)) u
+      setU (s.flag (if j.rawTaint || j.pending.any (·.2) then .fifoRaw u text else .fifo u text)) u
         { j with pending := resync j.pending text, served := true, charMode := false }
   | .ecmd _ _ => s
   | .kick _ t ok => if ok then (let j := getU s t; setU s t { j with connected := false }) else s
@@ -135,7 +136,7 @@ def judgeStep (s0 : JState) (e : Ev) : JState :=
     let s := if s.cyc != some n then s.flag (.malformed "end without begin") else s
     let starved := s.us.filter (fun e => e.2.eligible && live e.2 && !e.2.served)
     let s := starved.foldl (fun s e =>
-      s.flag (if firstLineRaw e.2.pending then .starvedRaw e.1 n else .starved e.1 n)) s
+      s.flag (if e.2.rawTaint || firstLineRaw e.2.pending then .starvedRaw e.1 n else .starved e.1 n)) s
     { s with cyc := none, mustNotBlock := none }
   | .crash w => s.flag (.crash w)
   | .other l => s.flag (.malformed l)
